@@ -310,8 +310,137 @@ func (g *Gen) scenObject() []N {
 	return out
 }
 
+
+// labelled statements of every kind with a jump to the label from inside a nested
+// statement (12.12: the label set of the labelled statement is not inherited by the
+// statements nested in it; break L leaves the whole labelled statement)
+func (g *Gen) scenLabel() []N {
+	l := g.fresh("L")
+	kind := g.pick(9)
+	isLoop := kind >= 5
+	jump := func() N {
+		if isLoop && g.chance(40) {
+			return Continue(l)
+		}
+		return Break(l)
+	}
+	nest := func() N {
+		j := jump()
+		if g.chance(30) {
+			j = If(Bin("===", Id("n"), Num(g.pick(3))), j, nil)
+		}
+		switch g.pick(8) {
+		case 0:
+			return Block(g.hcall(Str("in-block")), j, g.hcall(Str("block-rest")))
+		case 1:
+			k := g.fresh("k")
+			return For(Var(k, Num(0)), Bin("<", Id(k), Num(2)), Upd("++", false, Id(k)),
+				Block(g.hcall(Str("in-loop"), Id(k)), If(Bin("===", Id(k), Num(g.pick(2))), j, nil)))
+		case 2:
+			return Try([]N{g.hcall(Str("in-try")), j}, "e", nil, false, []N{g.hcall(Str("fin"))}, true)
+		case 3:
+			return Try([]N{Throw(Num(1))}, "e", []N{g.hcall(Str("in-catch")), j}, true, nil, false)
+		case 4:
+			return Try([]N{g.hcall(Str("t"))}, "e", nil, false, []N{g.hcall(Str("in-finally")), j}, true)
+		case 5:
+			return Switch(Num(1), Case(Num(1), g.hcall(Str("in-switch")), j), Case(Num(2), g.hcall(Str("fall"))))
+		case 6:
+			return With(Obj("w", Num(1)), Block(g.hcall(Str("in-with"), Id("w")), j))
+		default:
+			return If(Bool(true), j, nil)
+		}
+	}
+	body := func() []N {
+		out := []N{g.hcall(Str("body"))}
+		if g.chance(50) {
+			out = append(out, Expr(Asg("=", Id("n"), Bin("+", Id("n"), Num(1)))))
+		}
+		out = append(out, nest(), g.hcall(Str("after-nested")))
+		return out
+	}
+	var st N
+	k := g.fresh("k")
+	switch kind {
+	case 0:
+		st = Switch(Num(g.pick(3)), Case(Num(0), g.hcall(Str("c0"))), Case(Num(1), body()...), Case(Num(2), g.hcall(Str("c2"))), Case(nil, g.hcall(Str("default"))))
+	case 1:
+		st = Block(body()...)
+	case 2:
+		st = If(Bool(g.chance(80)), Block(body()...), Block(g.hcall(Str("else"))))
+	case 3:
+		st = Try(body(), "e", nil, false, []N{g.hcall(Str("outer-fin"))}, true)
+	case 4:
+		st = With(Obj("w", Num(2)), Block(body()...))
+	case 5:
+		st = For(Var(k, Num(0)), Bin("<", Id(k), Num(2)), Upd("++", false, Id(k)), Block(body()...))
+	case 6:
+		st = While(Bin("<", Upd("++", false, Id(k)), Num(2)), Block(body()...))
+	case 7:
+		st = DoWhile(Block(body()...), Bin("<", Upd("++", true, Id(k)), Num(2)))
+	default:
+		st = ForIn(true, k, Obj("p", Num(1), "q", Num(2)), Block(append([]N{g.hcall(Id(k))}, body()...)...))
+	}
+	out := []N{}
+	if kind == 6 || kind == 7 {
+		out = append(out, Var(k, Num(0)))
+	}
+	return append(out, Label(l, st), g.hcall(Str("after-label"), Id("n")))
+}
+
+// instanceof (11.8.6, 15.3.5.3): the walk starts at the PROTOTYPE of the left operand, uses the
+// current value of F.prototype, follows bound functions to their target, and throws TypeError
+// for a right operand that is not a function or whose prototype is not an object
+func (g *Gen) scenInstanceof() []N {
+	f, h := g.fresh("F"), g.fresh("G")
+	o, q := g.fresh("o"), g.fresh("q")
+	out := []N{
+		FDecl(f, nil), FDecl(h, nil),
+		Var(o, New(Id(f))),
+	}
+	lefts := []N{Id(o), Dot(Id(f), "prototype"), Dot(Id(h), "prototype"), Dot(Id("Object"), "prototype"), Dot(Id("Function"), "prototype"),
+		Id(f), Num(1), Str("s"), Null(), Obj("a", Num(1)), Fn("", nil)}
+	rights := []N{Id(f), Id(h), Id("Object"), Id("Function")}
+	probe := func() N {
+		return g.hcall(Bin("instanceof", lefts[g.pick(len(lefts))], rights[g.pick(len(rights))]),
+			Bin("instanceof", lefts[g.pick(len(lefts))], rights[g.pick(len(rights))]))
+	}
+	out = append(out, g.hcall(Bin("instanceof", Id(o), Id(f)), Bin("instanceof", Dot(Id(f), "prototype"), Id(f)),
+		Bin("instanceof", Dot(Id("Object"), "prototype"), Id("Object"))))
+	steps := 2 + g.pick(4)
+	for i := 0; i < steps; i++ {
+		switch g.pick(7) {
+		case 0:
+			out = append(out, Expr(Asg("=", Dot(Id(h), "prototype"), Id(o))), Var(q, New(Id(h))))
+			lefts = append(lefts, Id(q))
+		case 1:
+			out = append(out, Expr(Asg("=", Dot(Id(f), "prototype"), Obj("z", Num(1)))))
+		case 2:
+			out = append(out, Expr(Asg("=", Dot(Id(h), "prototype"), []N{Num(1), Null(), Undefined(), Str("p")}[g.pick(4)])),
+				Try([]N{g.hcall(Bin("instanceof", Id(o), Id(h)))}, "e", []N{g.hcall(Str("caught"), Bin("instanceof", Id("e"), Id("TypeError")))}, true, nil, false),
+				Try([]N{g.hcall(Bin("instanceof", Num(1), Id(h)))}, "e", []N{g.hcall(Str("caught-prim"), Bin("instanceof", Id("e"), Id("TypeError")))}, true, nil, false))
+		case 3:
+			b := g.fresh("B")
+			out = append(out, Var(b, Call(Dot(Id([]string{f, h}[g.pick(2)]), "bind"), Null())))
+			rights = append(rights, Id(b))
+		case 4:
+			out = append(out, Try([]N{g.hcall(Bin("instanceof", lefts[g.pick(len(lefts))], []N{Obj("a", Num(1)), Num(1), Str("f"), Dot(Id(f), "prototype")}[g.pick(4)]))},
+				"e", []N{g.hcall(Str("not-callable"), Bin("instanceof", Id("e"), Id("TypeError")))}, true, nil, false))
+		case 5:
+			out = append(out, Expr(Asg("=", Dot(Id(h), "prototype"), Dot(Id(f), "prototype"))))
+		default:
+			out = append(out, probe())
+		}
+		out = append(out, probe())
+	}
+	return out
+}
+
 func (g *Gen) scenario() []N {
-	switch g.pick(9) {
+	switch g.pick(11) {
+	case 9:
+		return g.scenLabel()
+	case 10:
+		return g.scenInstanceof()
 	case 8:
 		return g.scenObject()
 	case 0:
